@@ -72,7 +72,7 @@ def run(pid, tier, replay=None):
             modes = P["modes"]
             if pid == "C09" and tier == "quick" and not sim:
                 modes = '"standard"'     # quick: all form assignments in one mode; the simulated cases draw random modes
-            fh.write(CFG % (maxf, exportmin, P["forms"], "TRUE" if sim else "FALSE", 30 if tier == "quick" else 700, modes))
+            fh.write(CFG % (maxf, exportmin, P["forms"], "TRUE" if sim else "FALSE", 30 if tier == "quick" else 130, modes))
         casefile = os.path.join(wd, "cases_%s.jsonl" % name)
         n = 0
         seen = set()
@@ -93,7 +93,7 @@ def run(pid, tier, replay=None):
         states += r.distinct or len(seen)
         trans += r.generated or len(seen)
         ncases += n
-        use_race = P["race"] and (sim is not None or tier == "thorough")
+        use_race = P["race"] and sim is not None      # exhaustive families run natively, the simulated ones under -race
         env = {"GORACE": "halt_on_error=0 log_path=" + os.path.join(wd, "race_" + name)} if use_race else None
         rc, out, err = vf.run_driver(race_binary if use_race else binary, [P["mode"]], stdin_path=casefile, timeout=3000, env=env)
         if rc != 0 and not (use_race and rc == 66):
